@@ -5,9 +5,11 @@
    the IEEE 1364-2001 subset); the emitter model is IO/VerilogEmit.v, tied to
    the real emitter on every run by py/checks/C05.py. *)
 From PyRTL Require Import Netlist.Sem Netlist.WFDefs IO.VerilogEmit IO.VerilogTestbench
-  IO.VerilogProofs IO.VerilogModuleProofs IO.VerilogTestbenchProofs.
+  IO.VerilogProofs IO.VerilogModuleProofs IO.VerilogTestbenchProofs IO.VerilogEmitSrc Gen.C05Emit.
 
-(* For every exportable op, ALL operand widths and in-range operand values, and
+(* gen_emit_expr (Gen/C05Emit.v) is the per-op table REGENERATED on every run from the source of
+   _to_verilog_combinational by symbolic execution of its loop body (py/genfrag_C05.py).
+   For every exportable op, ALL operand widths and in-range operand values, and
    every destination width allowed by Block.sanity_check_net (vrules keeps only
    the rules the statement needs: non-negative widths, `~` destination not wider
    than its argument, select indices inside the argument): under Verilog-2001
@@ -17,20 +19,40 @@ From PyRTL Require Import Netlist.Sem Netlist.WFDefs IO.VerilogEmit IO.VerilogTe
    `{a[i_k],...,a[i_0]}` (scalar source without index), concat puts its first
    argument in the most significant position. *)
 Theorem C05_assign_correct : forall nl env n e,
-  emit_expr nl n = Some e ->
+  gen_emit_expr nl n = Some e ->
   vrules nl n = true ->
   (forall a, In a (nargs n) -> inrange (env a) (width_of nl a)) ->
   exists r, op_spec (nop n) (argvals nl env n) = Some r
             /\ vassign (width_of nl) env (ndest n) e = r mod 2 ^ width_of nl (ndest n).
-Proof. exact assign_correct. Qed.
+Proof. exact assign_correct_src. Qed.
 Print Assumptions C05_assign_correct.
+
+(* Every expression / statement table the structural predicate emitted_ok is built from
+   (IO/VerilogEmit.v, hand-written) IS the table regenerated from the current source
+   (Gen/C05Emit.v): the per-op assign of _to_verilog_combinational, the constant literal, the
+   register update and reset statements of _to_verilog_sequential (reset_value, else 0), the
+   memory write statement (enable = args[2], address = args[0], data = args[1]) and the memory
+   read address of _to_verilog_memories.  So C05_module_refines_spec is a statement about the
+   source's tables, for ALL ops -- not only for the ops of the sampled designs. *)
+Theorem C05_model_tables_match_source :
+  (forall nl n, emit_expr nl n = gen_emit_expr nl n)
+  /\ (forall c, VDec c = gen_const_expr c)
+  /\ (forall nl, expected_updates nl
+                 = map (fun n => (ndest n, gen_update_expr n)) (filter is_regnet (nets nl)))
+  /\ (forall nl mode, mode <> RNone ->
+        expected_resets nl mode
+        = map (fun n => (ndest n, gen_reset_expr (reg_reset nl (ndest n)))) (filter is_regnet (nets nl)))
+  /\ (forall nl mm, expected_writes nl mm = map gen_memwrite (filter (writes_to mm) (nets nl)))
+  /\ (forall n, arg n 0 = gen_memread_addr n).
+Proof. exact model_tables_match_source. Qed.
+Print Assumptions C05_model_tables_match_source.
 
 (* every op except nand, memory ports and registers has an emitted expression *)
 Example C05_every_comb_op_exported :
-  forallb (fun o => match emit_expr (mkNetlist [] [] []) (mkNet o [1; 2] 4) with
+  forallb (fun o => match gen_emit_expr (mkNetlist [] [] []) (mkNet o [1; 2] 4) with
                     | Some _ => true | None => false end)
           [OpAnd; OpOr; OpXor; OpAdd; OpSub; OpMul; OpLt; OpGt; OpEq] = true
-  /\ emit_expr (mkNetlist [] [] []) (mkNet OpNand [1; 2] 3) = None.
+  /\ gen_emit_expr (mkNetlist [] [] []) (mkNet OpNand [1; 2] 3) = None.
 Proof. vm_compute. split; reflexivity. Qed.
 
 (* non-vacuity: 3-bit a=5, b=6: 4-bit sum keeps the carry, 4-bit difference wraps
@@ -41,7 +63,7 @@ Definition ex_nl : netlist :=
      nets := []; mems := [] |}.
 Definition ex_env : Z -> Z := fun x => match x with 1 => 5 | 2 => 6 | 6 => 1 | _ => 0 end.
 Definition ex_assign (n : net) : option Z :=
-  match emit_expr ex_nl n with
+  match gen_emit_expr ex_nl n with
   | Some e => Some (vassign (width_of ex_nl) ex_env (ndest n) e)
   | None => None
   end.
